@@ -28,10 +28,17 @@
   Not proved:
   while a parse is suspended INSIDE a Contact line the "last contact" read returns the half-parsed value (true of the
   code as well; the theorems state the condition). The signature's truncation indication is proved in C19.
+  ACCESSORS FOR EVERY INDEX (`Sipsp.Proofs.Leftovers2`): `getContact_cases`, `getContact_isSome_iff`, `getContact_none_of_ge`
+  — the complete case table of `GetContact(k)` for every `k` (stored value / `last` slot for k = N-1 / `first` slot for
+  k = 0 / nil), `getPAI_cases`, `getPAI_none_iff`, `getHdr_cases`, `getHdr_none_iff`, `getHdr_after_run` (nil exactly for the
+  none / other / unknown types, after Init and any chunk schedule); `first_last_reference`: for every capacity (0 and none
+  included) and every schedule, `GetContact(0)` / `GetContact(N-1)` equal the first / last value of a reference run whose
+  array stores them.
 -/
 import Sipsp.Proofs.CapacityMsg
 import Sipsp.Proofs.CapacityExtra
 import Sipsp.Proofs.UriListsL
+import Sipsp.Proofs.Leftovers2
 
 namespace Sipsp.C13
 open Sipsp
@@ -147,5 +154,36 @@ theorem first_contact_retrievable : type_of% @Sipsp.getContact_first_isSome := @
 
 /-- with at least one value parsed, `GetContact(N-1)` is never nil, whatever the capacity -/
 theorem last_contact_retrievable : type_of% @Sipsp.getContact_last_isSome := @Sipsp.getContact_last_isSome
+
+/-! ### the accessors for EVERY index; first / last contact against a reference run that stores them (proved in `Sipsp.Proofs.Leftovers2`) -/
+
+/-- complete case table of `GetContact(k)`, every `k` -/
+theorem getContact_cases : type_of% @Sipsp.lo2_getContact_cases := @Sipsp.lo2_getContact_cases
+
+/-- `GetContact(k)` is non-nil exactly for a stored index, or — when at least one value was parsed — for the first
+    and the last index (scratch slots) -/
+theorem getContact_isSome_iff : type_of% @Sipsp.lo2_getContact_isSome_iff := @Sipsp.lo2_getContact_isSome_iff
+
+/-- an index at or beyond the number of parsed values gives nil -/
+theorem getContact_none_of_ge : type_of% @Sipsp.lo2_getContact_none_of_ge := @Sipsp.lo2_getContact_none_of_ge
+
+theorem getPAI_cases : type_of% @Sipsp.lo2_getPAI_cases := @Sipsp.lo2_getPAI_cases
+
+/-- `GetPAI(k)`: nil exactly outside `[0, VNo)` -/
+theorem getPAI_none_iff : type_of% @Sipsp.lo2_getPAI_none_iff := @Sipsp.lo2_getPAI_none_iff
+
+/-- `GetHdr(t)` for every `t`: the slot `t-1` of the first-of-type table for a known type, nil otherwise -/
+theorem getHdr_cases : type_of% @Sipsp.lo2_getHdr_cases := @Sipsp.lo2_getHdr_cases
+
+theorem getHdr_none_iff : type_of% @Sipsp.lo2_getHdr_none_iff := @Sipsp.lo2_getHdr_none_iff
+
+/-- **`GetHdr` after Init and any chain of ParseSIPMsg calls**: total, nil exactly for `HdrNone`, `HdrOther` and
+    unknown type numbers, otherwise the slot of that type -/
+theorem getHdr_after_run : type_of% @Sipsp.lo2_getHdr_after_run := @Sipsp.lo2_getHdr_after_run
+
+/-- **from Init, every chunk schedule, every capacity (zero / none included)**: after OK with at least one contact,
+    `GetContact(0)` is the element a reference run stores at index 0 and `GetContact(N-1)` the element it stores at
+    index N-1 (reference = any run whose array has room for them) -/
+theorem first_last_reference : type_of% @Sipsp.lo2_first_last_reference := @Sipsp.lo2_first_last_reference
 
 end Sipsp.C13
